@@ -526,6 +526,87 @@ def guards_of(node, stop=None, fn=None):
     return out
 
 
+class _Subst(ast.NodeTransformer):
+    def __init__(self, env):
+        self.env = env
+
+    def visit_Name(self, n):
+        if isinstance(n.ctx, ast.Load) and n.id in self.env:
+            return _clone_expr(self.env[n.id])
+        return n
+
+
+def _fold_str(e):
+    """'a' + 'b' -> 'ab' inside an expression (left-nested sums too)"""
+    class F(ast.NodeTransformer):
+        def visit_BinOp(self, n):
+            self.generic_visit(n)
+            if isinstance(n.op, ast.Add) and isinstance(n.left, ast.Constant) and isinstance(n.right, ast.Constant) and isinstance(n.left.value, str) and isinstance(n.right.value, str):
+                return ast.Constant(value=n.left.value + n.right.value)
+            if isinstance(n.op, ast.Add) and isinstance(n.left, ast.Constant) and n.left.value == "":
+                return n.right
+            if isinstance(n.op, ast.Add) and isinstance(n.right, ast.Constant) and n.right.value == "":
+                return n.left
+            return n
+    return F().visit(e)
+
+
+def sym_cases(fn, target, limit=256):
+    """symbolic evaluation of the straight-line / if structure of fn up to the statement that holds the expression `target`:
+    [(conditions [(expression, truth)], value of target)] with every local written in terms of the function's inputs
+    (assignments and += are substituted, conditional expressions assigned to a local are split into cases).
+    Loops and try statements on the way are not followed (AnalysisError if target lies inside one that assigns a local it reads)."""
+    stop = enclosing_stmt(target)
+    out = []
+
+    def sub(e, env):
+        return _fold_str(_Subst(env).visit(_clone_expr(e)))
+
+    def split(e):
+        """[(conds, leaf)] of a (nested) conditional expression"""
+        if isinstance(e, ast.IfExp):
+            return [([(e.test, True)] + c, l) for c, l in split(e.body)] + [([(e.test, False)] + c, l) for c, l in split(e.orelse)]
+        return [([], e)]
+
+    def go(todo, conds, env):
+        if len(out) > limit:
+            raise AnalysisError("sym_cases: too many cases in %s" % getattr(fn, "_qual", "?"))
+        if not todo:
+            return
+        s, rest = todo[0], todo[1:]
+        if s is stop or contains(s, target) and not isinstance(s, (ast.If,)):
+            for c, leaf in split(sub(target, env)):
+                out.append((conds + c, leaf))
+            return
+        if isinstance(s, ast.If):
+            t = sub(s.test, env)
+            go(list(s.body) + rest, conds + [(t, True)], env)
+            go(list(s.orelse) + rest, conds + [(t, False)], env)
+            return
+        if isinstance(s, (ast.Return, ast.Raise, ast.Continue, ast.Break)):
+            return
+        if isinstance(s, ast.Assign) and len(s.targets) == 1 and isinstance(s.targets[0], ast.Name):
+            for c, leaf in split(sub(s.value, env)):
+                go(rest, conds + c, dict(env, **{s.targets[0].id: leaf}))
+            return
+        if isinstance(s, ast.Assign) and len(s.targets) == 1 and isinstance(s.targets[0], ast.Tuple) and isinstance(s.value, ast.Tuple) and len(s.value.elts) == len(s.targets[0].elts) and all(isinstance(t_, ast.Name) for t_ in s.targets[0].elts):
+            new = dict(env)
+            for t_, v_ in zip(s.targets[0].elts, s.value.elts):
+                new[t_.id] = sub(v_, env)
+            go(rest, conds, new)
+            return
+        if isinstance(s, ast.AugAssign) and isinstance(s.target, ast.Name):
+            cur = env.get(s.target.id, ast.Name(id=s.target.id, ctx=ast.Load()))
+            val = _fold_str(ast.BinOp(left=_clone_expr(cur), op=s.op, right=sub(s.value, env)))
+            go(rest, conds, dict(env, **{s.target.id: val}))
+            return
+        # any other statement: locals it stores become unknown
+        stored = {n.id for n in ast.walk(s) if isinstance(n, ast.Name) and isinstance(n.ctx, (ast.Store, ast.Del))}
+        go(rest, conds, {k: v for k, v in env.items() if k not in stored})
+    go(list(fn.body), [], {})
+    return out
+
+
 def keyed_values(fn, key):
     """the expressions a function binds to the constant mapping key `key`: {key: v} displays, dict(..., key=v) / .update(key=v)
     keywords and m[key] = v stores"""
